@@ -171,6 +171,11 @@ def gen_plan(rng, index, tier):
             # the instance table is cut to the labels' width in detection order (no limit "set"): a reference that is itself cut
             # cannot say which instances a score-ranked limit should have kept
             plan["max_instances"] = None
+    if kind != "bottomup" and plan.get("refinement") == "integral" and plan.get("frame_kind") != "blob" and rng.random() < 0.5:
+        # some (not all) frames come back with negative ringing around their peaks, as real networks' maps do
+        ks = [f["k"] for f in plan["frames"] if f["animals"]]
+        if len(ks) >= 2:
+            plan["ringing"] = sorted(rng.sample(ks, rng.randint(1, len(ks) - 1)))
     plan["perm_seed"] = rng.randrange(1 << 30)
     plan["faults"] = []
     if rng.random() < 0.2:
@@ -300,7 +305,7 @@ def execute(plan, choices=None):
               "partial_last_batch": 0, "fault_cut_stream": 0, "permuted_run_compared": 0, "two_videos": 0, "degenerate_tie_scene_skipped": 0,
               "border_scene": int(bool(plan.get("border"))), "whole_batch_empty": 0, "batch_larger_than_paf_grid": int(bool(plan.get("tiny"))), "mixed_frame_sizes": int("sizes" in plan and len({tuple(x) for x in plan["sizes"]}) > 1),
               "ground_truth_centroid_runs": int(bool(plan.get("gt_centroids"))), "centroid_only_runs": int(bool(plan.get("centroid_only"))),
-              "videos_share_file_name": int(bool(plan.get("same_filename"))), "partially_labelled_frames": sum(1 for f in plan["frames"] if f.get("unlabelled")),
+              "videos_share_file_name": int(bool(plan.get("same_filename"))), "frames_with_negative_ringing": len(plan.get("ringing", ())), "partially_labelled_frames": sum(1 for f in plan["frames"] if f.get("unlabelled")),
               "more_centroids_than_label_table_rows": 0}
 
     def V(kind, where, detail):
